@@ -3,9 +3,9 @@
    wf_trans c t := the target distribution of transition t has num_atoms entries (they need not sum to one:
    the network clamps probabilities at 1e-3).  project_flat c g ts is the flat (batch*atoms) array produced by
    the two index_add_ calls of _dqn_loss with batch offsets; None models IndexError. *)
-From Coq Require Import List ZArith QArith Qround Qabs.
+From Coq Require Import List ZArith QArith Qround Qabs Bool.
 Import ListNotations.
-From AgileV Require Import C18.Model C18.Proofs C18.Kernel.
+From AgileV Require Import C18.Model C18.Proofs C18.Kernel C18.Deepen C18.FloatB.
 Local Open Scope Q_scope.
 
 (* For every support with at least two atoms and v_min < v_max, every reward, done flag, discount and atom:
@@ -153,4 +153,73 @@ Example c18_priority_nonvacuous :
 Proof.
   cbv zeta. split; [split; [cbn; auto | reflexivity]|]. split; [discriminate|].
   repeat split; vm_compute; reflexivity.
+Qed.
+
+(* ---- deepening round ---- *)
+
+(* Masked bootstrap.  When (1 - done) * discount = 0 — a terminal transition, in particular an n-step record whose window was
+   cut by the end of the episode (MultiStepReplayBuffer stores done = 1 for it and the reward summed up to the cut; the
+   window length m < n is NOT stored and learn uses gamma^n regardless), or discount 0 — the mean of the projected row is
+   mass * clamp(reward): the discount exponent is irrelevant exactly where it would be wrong.  For windows that are not cut
+   (done = 0) the record spans n steps and mean_conserved with g = gamma^n is the n-step Bellman target. *)
+Theorem masked_bootstrap_mean : forall c g ts flat k t, valid c -> wf_trans c t -> (1 - done t) * g == 0 ->
+  project_flat c g ts = Some flat -> nth_error ts k = Some t ->
+  dot (row_slice (natoms c) k flat) (support c) == Qsum (pnext t) * Qclamp (vmin c) (vmax c) (rew t).
+Proof. exact masked_mean_lemma. Qed.
+Print Assumptions masked_bootstrap_mean.
+
+(* ... and the whole projected row is the same for any two discounts that are both masked (gamma vs gamma^n, done = 1). *)
+Theorem masked_bootstrap_projection : forall c g g' t i, valid c -> (1 - done t) * g == 0 -> (1 - done t) * g' == 0 ->
+  nth i (project_row c g t) 0 == nth i (project_row c g' t) 0.
+Proof. exact masked_projection_lemma. Qed.
+Print Assumptions masked_bootstrap_projection.
+
+(* The batch offset the model uses for row k (k * num_atoms) is what the code computes:
+   torch.linspace(0, (batch_size - 1) * num_atoms, batch_size).long()[k]  (exact linspace; also batch_size = 1). *)
+Theorem offsets_are_linspace : forall B N k, (k < B)%nat -> offset_code B N k = (Z.of_nat k * Z.of_nat N)%Z.
+Proof. exact offset_code_lemma. Qed.
+Print Assumptions offsets_are_linspace.
+
+(* With a source distribution of mass one (the head renormalises since 92c49c5) every projected row has mass one. *)
+Theorem unit_mass_preserved : forall c g ts flat k t, valid c -> wf_trans c t -> Qsum (pnext t) == 1 ->
+  project_flat c g ts = Some flat -> nth_error ts k = Some t ->
+  Qsum (row_slice (natoms c) k flat) == 1.
+Proof. exact unit_mass_lemma. Qed.
+Print Assumptions unit_mass_preserved.
+
+Example c18_masked_nonvacuous :
+  let c := {| natoms := 5; vmin := 0; vmax := 4 |} in
+  let t := {| rew := 9; done := 1; pnext := [1#5; 1#5; 1#5; 1#5; 1#5] |} in
+  valid c /\ wf_trans c t /\ (1 - done t) * (1#2) == 0 /\ Qsum (pnext t) == 1 /\
+  map Qred (project_row c (1#2) t) = [0; 0; 0; 0; 1] /\ offset_code 3 5 2 = 10%Z /\ offset_code 1 5 0 = 0%Z.
+Proof. cbv zeta. split; [split; [cbn; auto | reflexivity]|]. repeat split; vm_compute; reflexivity. Qed.
+
+(* Robustness to the rounding of b (the named float gap).  The code computes b in float32 and then clamps it into [0, N-1]
+   (c92d5ae).  For ANY fractional indices inside [0, N-1] — not only the exact ones — the floor/ceil + fix-up + two scatter-add
+   kernel with batch offsets never leaves the flat array, ... *)
+Theorem float_b_projection_total : forall n rows, (2 <= n)%nat -> Forall (brow_ok n) rows ->
+  project_flat_b n rows = Some (scatter (repeat 0 (length rows * n)) (b_ops n rows)).
+Proof. exact b_project_some. Qed.
+Print Assumptions float_b_projection_total.
+
+(* ... row k receives exactly the mass of transition k, and its index-mean is sum_j p_j * b_j: an error e in b_j moves the
+   mean by p_j * e * delta_z and nothing else (compare unclamped_float_b_refuted for b outside the range). *)
+Theorem float_b_mass_and_mean : forall n rows flat k row, (2 <= n)%nat -> Forall (brow_ok n) rows ->
+  project_flat_b n rows = Some flat -> nth_error rows k = Some row ->
+  Qsum (row_slice n k flat) == lsum (fun bp => snd bp) row /\
+  dotf (fun i => inject_Z (Z.of_nat i)) (row_slice n k flat) == lsum (fun bp => snd bp * fst bp) row.
+Proof. exact float_b_mass_lemma. Qed.
+Print Assumptions float_b_mass_and_mean.
+
+Example c18_float_b_nonvacuous :
+  Forall (brow_ok 51) [[(50, 1)]; [(1 # 3, 1 # 2); (0, 1 # 2)]] /\
+  option_map (fun f => (Qred (Qsum (row_slice 51 0 f)), Qred (Qsum (row_slice 51 1 f))))
+             (project_flat_b 51 [[(50, 1)]; [(1 # 3, 1 # 2); (0, 1 # 2)]]) = Some (1, 1).
+Proof.
+  split; [|vm_compute; reflexivity].
+  assert (R : forall b, Qle_bool 0 b && Qle_bool b (inject_Z (Z.of_nat 51 - 1)) = true -> 0 <= b <= inject_Z (Z.of_nat 51 - 1)).
+  { intros b H. apply andb_true_iff in H. destruct H as [A B]. split; apply Qle_bool_iff; assumption. }
+  constructor; [|constructor; [|constructor]]; intros bp Hbp; cbn in Hbp.
+  - destruct Hbp as [<-|[]]. apply R. reflexivity.
+  - destruct Hbp as [<-|[<-|[]]]; apply R; reflexivity.
 Qed.
